@@ -17,7 +17,7 @@
      with a yield between the sending calls.
    Which arms store to the cell and every code come from Gen.GenStreamFaults.
    Not modelled: bytes inside frames (QPACK, field validation: C11/C12), write back-pressure (SimQuic
-   accepts writes at once), trailers, WebTransport (remaining_data = usize::MAX). *)
+   accepts writes at once), split() halves, WebTransport (remaining_data = usize::MAX). *)
 From H3V Require Import Base.Bytes Gen.GenCodes Gen.GenStreamFaults Spec.StreamScoped.
 
 (* ------------------------------------------------------------------ shared state + driver *)
@@ -63,7 +63,7 @@ Inductive serr :=
 | SHeaderTooBig
 | SRemoteClosing
 | SConn (code : N)              (* StreamError::ConnectionError(Local Application code) *)
-| SOtherVariant.
+| SUndefined.                   (* StreamError::Undefined(_) *)
 Inductive api := AResolve | ARecv | ASendResp | ASendData | AFinish | ASendReq | ARecvResp | ARecvTrl | ASendTrl.
 Inductive result := ROk | RErr (a : api) (e : serr) | RPanic (site : N) | RUnmodelled.
 
@@ -78,7 +78,7 @@ Definition serr_of_variant (v : sevariant) (c : N) : serr :=
   | VHeaderTooBig => SHeaderTooBig
   | VRemoteClosing => SRemoteClosing
   | VConnectionError => SConn c
-  | VUndefined => SOtherVariant
+  | VUndefined => SUndefined
   end.
 
 (* CloseStream::handle_quic_stream_error on StreamErrorIncoming::StreamTerminated { error_code } *)
@@ -86,6 +86,11 @@ Definition on_stream_terminated (code : N) (s : shared) : shared * serr :=
   let c := if hq_term_code_is_peers then code else hq_term_const in
   if hq_term_stores then let '(s', c') := store c s in (s', SConn c')
   else (s, serr_of_variant hq_term_variant c).
+
+(* CloseStream::handle_quic_stream_error on StreamErrorIncoming::Unknown(_) *)
+Definition on_stream_unknown (s : shared) : shared * serr :=
+  if hq_unknown_stores then let '(s', c') := store H3_INTERNAL_ERROR s in (s', SConn c')
+  else (s, serr_of_variant hq_unknown_variant 0).
 
 (* ------------------------------------------------------------------ FrameStream over classified chunks *)
 Record fstream := { buf : list ev; remaining : N; eos : bool; rx : list ev }.
@@ -424,7 +429,29 @@ Definition exec_pc (sh : shared) (r : req) : shared * req * status :=
       | (TrPanic n, sh', f) => (sh', finish_with r f (RPanic n) (tx r) (calls r), Stop)
       | (TrUnmodelled, sh', f) => (sh', finish_with r f RUnmodelled (tx r) (calls r), Stop)
       end
-  | SFinish => (sh, finish_with r (fs r) ROk (tx r) (calls r ++ [CFin]), Stop)   (* SimQuic poll_finish cannot fail here *)
+  (* ---- both roles: finish(): the connection's one grease frame if this request carries it, then poll_finish *)
+  | SFinish | CFinish =>
+      match (if c_grease (cfg r) then write_err r sh else None) with
+      | Some (sh', e) =>
+          if finish_err_via_hq then (sh', finish_with r (fs r) (RErr AFinish e) (tx r) (calls r), Stop)
+          else let '(sh2, e2) := conn_error_on_stream H3_INTERNAL_ERROR sh in
+               (sh2, finish_with r (fs r) (RErr AFinish e2) (tx r) (calls r), Stop)
+      | None =>
+          let t := tx r ++ (if c_grease (cfg r) then [WGrease] else []) in
+          (* the transport's poll_finish reports a STOP_SENDING it has seen: StreamTerminated, or (h3-quinn) Unknown *)
+          match stopped r with
+          | Some c =>
+              let '(sh', e) := if c_unk (cfg r) then on_stream_unknown sh else on_stream_terminated c sh in
+              if finish_err_via_hq then (sh', finish_with r (fs r) (RErr AFinish e) t (calls r), Stop)
+              else let '(sh2, e2) := conn_error_on_stream H3_INTERNAL_ERROR sh in
+                   (sh2, finish_with r (fs r) (RErr AFinish e2) t (calls r), Stop)
+          | None =>
+              match pcr r with
+              | SFinish => (sh, finish_with r (fs r) ROk t (calls r ++ [CFin]), Stop)
+              | _ => (sh, upd r (fs r) CRecvResp (acc r) t (calls r ++ [CFin]) None, Continue)
+              end
+          end
+      end
   (* ---- client: send_request, send_data, finish, recv_response *)
   | CSendReq =>
       if closing sh then (sh, finish_with r (fs r) (RErr ASendReq SRemoteClosing) (tx r) (calls r), Stop)
@@ -433,7 +460,6 @@ Definition exec_pc (sh : shared) (r : req) : shared * req * status :=
            | Some (sh', e) => (sh', finish_with r (fs r) (RErr ASendReq e) (tx r) (calls r), Stop)
            | None => (sh, upd r (fs r) CSendData (acc r) (tx r ++ [WHeaders 0]) (calls r) None, Stop)
            end
-  | CFinish => (sh, upd r (fs r) CRecvResp (acc r) (tx r) (calls r ++ [CFin]) None, Continue)
   | CRecvResp =>
       match poll_next (fs r) with
       | (PnPending, f) => (sh, goto r f CRecvResp, Stop)
@@ -588,6 +614,7 @@ Definition outcome_of (r : option result) : outcome :=
   | Some (RErr _ SHeaderTooBig) => OStreamErr KHeaderTooBig None
   | Some (RErr _ SRemoteClosing) => OStreamErr KRemoteClosing None
   | Some (RErr _ (SConn c)) => OConnErr c
+  | Some (RErr _ SUndefined) => OStreamErr KUndefined None
   | Some _ => OOther
   end.
 Definition observe (r : req) : observed :=
